@@ -156,3 +156,6 @@ OBLIGATIONS = [
 
 from harness.corace import OB_SEMP, sliding_window_preempt  # noqa: E402
 OBLIGATIONS += [dict(OB_SEMP, id='C11.5')]
+
+from harness.c10 import OBLIGATIONS as _C10OBS, wiring  # noqa: E402
+OBLIGATIONS += [dict(o, id='C11.0') for o in _C10OBS if o['id'] == 'C10.1']
